@@ -96,7 +96,9 @@ def history(draw, tier):
         us = [draw(frac) for _ in nodes]
         steps.append({"m": mi, "root": root, "phi": [phi.numerator, phi.denominator],
                       "u": [[x.numerator, x.denominator] for x in us]})
-    return {"kind": "history", "pool": pool, "steps": steps}
+    # "plain": phi and u are handed over as ordinary Python numbers (floats, exact zeros included), the way
+    # message passing calls the evaluator; otherwise as exact polynomial constants
+    return {"kind": "history", "pool": pool, "steps": steps, "plain": draw(st.booleans())}
 
 
 def strategy(tier):
@@ -149,14 +151,24 @@ def check(case):
         nodes = sorted({v for e in mo["edges"] for v in e})
         phi = Fraction(*stp["phi"])
         us = {v: Fraction(*x) for v, x in zip(nodes, stp["u"])}
+        env = {f"u{v}": x for v, x in us.items()}
+        env["p"] = phi
+        if case.get("plain"):
+            G = graph_of(mo["name"], mo["edges"], {v: (float(x) if x else (0 if v % 2 else 0.0)) for v, x in us.items()})
+            got = call("automated_equation", AE.automated_equation, G, float(phi), stp["root"])
+            wv = oracle_poly(mo["edges"], stp["root"]).subs(env)
+            if abs(float(got) - float(wv)) > 1e-9:
+                raise Violation("history-dependence", f"step {si} of {len(case['steps'])} on a shared evaluator (plain float arguments): "
+                                                      f"motif {mo['name']} edges {mo['edges']} focal {stp['root']} phi {float(phi)} u {us}: got "
+                                                      f"{got!r}, exact expectation {float(wv)!r}; earlier steps {case['steps'][:si]}")
+            seen.setdefault(stp["m"], set()).add(phi)
+            continue
         G = graph_of(mo["name"], mo["edges"], {v: Poly.const(x) for v, x in us.items()})
         got = call("automated_equation", AE.automated_equation, G, Poly.const(phi), stp["root"])
         if isinstance(got, Poly):
             if not got.is_const():
                 raise Violation("history-nonconstant", f"step {si}: result still contains variables")
             got = got.const_value()
-        env = {f"u{v}": x for v, x in us.items()}
-        env["p"] = phi
         # oracle polynomial may not mention every variable
         want = oracle_poly(mo["edges"], stp["root"])
         wv = want.subs({**{k: 0 for k in []}, **env})
